@@ -19,12 +19,20 @@ META = dict(
     text="Lean theorems (PPProofs/Props/C14.lean) prove for ALL strings and all loc<=len that col, lineno and line "
          "describe one and the same line (unique line start, 1-based offset, newline count, line text), and that "
          "expandtabs output is tab-free and idempotent; the Lean model is a statement-by-statement transcription of "
-         "util.col/lineno/line and is tied to the code by an exhaustive small-alphabet + random differential run on "
-         "every check. Parser-reported locations (actions, scan_string, Located, original_text_for, exceptions) are "
+         "util.col/lineno/line and is tied to the code two ways on every check: (a) TRANSLATOR tie - harness/py2lean.py "
+         "re-translates the live source text of util.col/lineno/line (ast -> Lean over the CPython-builtin semantics "
+         "PPModel/Base/PyStr.lean) into Props/Gen/UtilSrc.lean, and src_col_eq / src_lineno_eq / src_line_eq "
+         "(PPProofs/Props/C14Src.lean) prove for ALL strings and locations that the hand-written model computes exactly "
+         "what the translated source computes (src_col_index_in_range: the only index expression is evaluated in "
+         "range), so the property theorems are theorems about the current source of these three functions modulo "
+         "PyStr; (b) an exhaustive small-alphabet + random differential run. Parser-reported locations (actions, scan_string, Located, original_text_for, exceptions) are "
          "partial: decided by slice-identity oracles on the real code and by the parse-model correspondence.",
-    note="Trusted: Lean kernel; axioms propext/Classical.choice/Quot.sound; the LineCol transcription (checked "
-         "differentially); CPython str.rfind/find/count/expandtabs. Parser location clauses are oracle-checked only.",
-    technique="Lean 4 proof over a transcribed model + differential correspondence with util.py",
+    note="Trusted: Lean kernel; axioms propext/Classical.choice/Quot.sound; the translator harness/py2lean.py "
+         "(PyLite subset; anything else is a broken obligation) and PPModel/Base/PyStr.lean as the reading of CPython "
+         "len/index/slice/find/rfind/count (validated against CPython itself on every run, stream pystr-vs-cpython); "
+         "lru_cache is assumed transparent (oracle: answers independent of query order); the expandtabs model "
+         "(checked differentially). Parser location clauses are oracle-checked only.",
+    technique="Lean 4 proof over a model proved equal to the machine-translated source of util.py (translator tie) + differential correspondence",
     design="§5 C14",
 )
 
@@ -41,6 +49,16 @@ THEOREMS = [
     "PP.LineCol.expandTabs_no_tab",
     "PP.LineCol.expandTabs_idem",
 ]
+
+# translator tie (harness/py2lean.py): the live source of util.col/lineno/line, translated on every run into
+# lean/PPProofs/Props/Gen/UtilSrc.lean, is proved equal to the hand-written model for all strings and locations
+SRC_THEOREMS = [
+    "PP.LineCol.src_col_eq",
+    "PP.LineCol.src_lineno_eq",
+    "PP.LineCol.src_line_eq",
+    "PP.LineCol.src_col_index_in_range",
+]
+THEOREMS = THEOREMS + SRC_THEOREMS
 
 ALPHA = ["a", "\n", "\r", "\t"]
 
@@ -252,9 +270,64 @@ def oracle_parse_locs(pp, gname, mk, s, keep_tabs):
     return probs
 
 
+def _pystr_validation(ctx):
+    """PPModel/Base/PyStr.lean (the CPython-builtin semantics the translated source is expressed in) against CPython
+    itself: find / rfind / count with a one-character needle, slicing, indexing — bounds negative, beyond the end, None"""
+    rng = ctx.subrng("pystr")
+    cases, lines, impl = [], [], []
+
+    def bound(n):
+        r = rng.random()
+        if r < 0.2:
+            return None
+        return rng.randint(-n - 3, n + 3)
+
+    def b(x):
+        return Sym("N") if x is None else x
+
+    for k in range(ctx.budget(4000, 40000)):
+        n = rng.randint(0, 9)
+        s = "".join(rng.choice(["a", "\n", "b", "\n", "é"]) for _ in range(n))
+        c = rng.choice(["\n", "a", "z"])
+        lo, hi = bound(n), bound(n)
+        op = ("find", "rfind", "count", "slice", "item", "len")[k % 6]
+        if op in ("find", "rfind", "count"):
+            lines.append(sx(Sym("pystr"), Sym(op), s, c, b(lo), b(hi)))
+            impl.append(sx(getattr(s, op)(c, lo, hi)))
+        elif op == "slice":
+            lines.append(sx(Sym("pystr"), Sym(op), s, b(lo), b(hi)))
+            impl.append(sx(s[lo:hi]))
+        elif op == "item":
+            i = rng.randint(-n - 2, n + 2)
+            lo = i
+            lines.append(sx(Sym("pystr"), Sym(op), s, i))
+            try:
+                impl.append(sx(s[i]))
+            except IndexError:
+                impl.append(sx(Sym("IndexError")))
+        else:
+            lines.append(sx(Sym("pystr"), Sym(op), s))
+            impl.append(sx(len(s)))
+        cases.append([op, s, c, lo, hi])
+    ctx.correspond("pystr-vs-cpython", cases, lines, impl, nontrivial=lambda c, o: len(c[1]) > 0,
+                   outcome_of=lambda c, o: c[0])
+
+
 def run(ctx):
     pp = common.import_pyparsing()
-    ctx.proof_leg("PPProofs.Props.C14", THEOREMS)
+    # ---- translator tie: regenerate Gen/UtilSrc.lean from the live source text ----------------
+    from .. import py2lean
+    from pyparsing import util as pp_util
+    generated = {}
+    try:
+        generated["PPProofs/Props/Gen/UtilSrc.lean"] = py2lean.translate(
+            [pp_util.col, pp_util.lineno, pp_util.line], "PP.Gen.UtilSrc", "pyparsing/util.py")
+        ctx.obligation("util.col/lineno/line lie in the translatable subset (PyLite)", True, "translated")
+    except (py2lean.Untranslatable, OSError, TypeError, SyntaxError, IndexError) as ex:
+        # the source left the subset: the translated definitions of the last run stay in place, the tie is broken
+        ctx.obligation("util.col/lineno/line lie in the translatable subset (PyLite)", False, str(ex)[:300])
+    ctx.proof_leg("PPProofs.Props.C14", THEOREMS, generated=generated, extra_modules=("PPProofs.Props.C14Src",))
+    _pystr_validation(ctx)
     ctx.rule.append(
         "linecol: all strings of length<=L over {a,\\n,\\r,\\t} x all loc in 0..len+1, plus random strings "
         "(len 6..40, incl. é, quotes, backslash); non-trivial = string contains a newline or tab; "
